@@ -2,7 +2,7 @@
 with what budgets (cases per shard), for the quick and the thorough tier; plus the texts that
 go into MANIFEST.json and the evidence files."""
 
-SETUP_CONFIGS = ["std-rel", "std-dbg", "portable-rel", "portable-dbg", "nounroll-rel", "native-rel", "asan", "miri-build", "tsan",
+SETUP_CONFIGS = ["std-rel", "std-dbg", "portable-rel", "portable-dbg", "nounroll-rel", "native-rel", "asan", "miri-build", "miri-be", "tsan",
                  "nostd-sse2", "nostd-ssse3", "nostd-sse41", "nostd-avx", "nostd-avx2"]
 
 HOOK_COMMITS = ["0eb0db3", "aa9cd32"]
@@ -181,7 +181,7 @@ def jobs(pid, tier, seed):
             js += J(pid, c, 4, n)
     elif pid in ("C04", "C05", "C06", "C07"):
         big = pid in ("C04", "C05")
-        js += J(pid, "std-rel", 8, (3000 if big else 1500) if q else (250000 if big else 60000))
+        js += J(pid, "std-rel", 8, (3000 if big else 1500) if q else (250000 if big else 60000), huge=1)  # shard 0: + one call on > 2^32 bytes
         js += J(pid, "std-dbg", 4, (1000 if big else 500) if q else (60000 if big else 15000))
         if pid in ("C04", "C06"):
             js += J(pid, "portable-rel", 2, 1000 if q else 15000)
@@ -218,6 +218,9 @@ def jobs(pid, tier, seed):
         js += J(pid, "std-dbg", 5, n // 2)
         js += J(pid, "portable-rel", 1, n)
         js += J(pid, "portable-dbg", 1, n // 2)
+        # statically enabled CPU features change which code the machine types compile to
+        js += J(pid, "native-rel", 1, n)
+        js += J(pid, "nostd-ssse3", 1, n)
         if not q:
             js += J(pid, "std-rel", 20, n)  # more operand seeds
             js += J(pid, "miri", 1, 8, timeout=3600)
@@ -258,6 +261,12 @@ def jobs(pid, tier, seed):
         js += J(pid, "std-rel", 6, n)
         if not q:
             js += J(pid, "miri", 1, 12, timeout=3600)
+    # a big-endian target (s390x) interpreted by Miri: the portable code paths under
+    # cfg(target_endian = "big") and every byte-order assumption (quick: two cheap slices)
+    be = {"C09": 6, "C13": 6} if q else {"C01": 8, "C02": 6, "C04": 6, "C05": 6, "C06": 4, "C08": 3, "C09": 12, "C10": 12, "C11": 6,
+                                          "C12": 6, "C13": 8, "C14": 8, "C15": 8, "C19": 12}
+    if pid in be:
+        js += J(pid, "miri-be", 1, be[pid], timeout=3600)
     for j in js:
         j["args"]["seed"] = seed
         j["args"]["tier"] = tier
@@ -353,6 +362,8 @@ def c20(drv, pid, tier, seed):
     q = tier == "quick"
     n = 400 if q else 30000
     js = []
+    if not q:
+        js += J(pid, "miri-be", 1, 18, timeout=3600)
     for cfg in ["std-rel", "std-dbg", "portable-rel", "nounroll-rel", "nostd-sse2", "nostd-avx2", "native-rel"] + ([] if q else ["portable-dbg", "nostd-ssse3", "nostd-sse41", "nostd-avx", "nounroll-dbg"]):
         js += J(pid, cfg, 2, n)
     for j in js:
